@@ -24,11 +24,16 @@ EXTENDS Integers, Sequences, FiniteSets, TLC, Json, Randomization
 
 CONSTANTS MAXN,      \* trees with 1..MAXN nodes
           MAXNC,     \* at most this many non-Continue decisions per case
-          SAMPLE     \* 0: every decision/change vector; k > 0: k random vectors per (tree, method)
+          SAMPLE,    \* 0: every decision/change vector; k > 0: k random vectors per (tree, method)
+          SUBQ,      \* TRUE: leading one-child children are embedded subqueries (LogicalPlan *_with_subqueries): a Jump
+                     \* coming back from such a child is absorbed at the expression boundary (becomes Continue)
+          STAR       \* TRUE: only the trees root + k leaves (2..MAXN nodes), root never replaced: the cases that are
+                     \* mapped onto every real node variant (child enumeration order of one node)
 
 VARIABLES c,   \* the case
           ev   \* its evaluation (computed once in Init): [res, kids, logpn]
-Methods == {"apply", "visit", "transform_down", "transform_up", "transform_down_up", "rewrite", "map_children", "exists"}
+Methods == {"apply", "visit", "transform_down", "transform_up", "transform_down_up", "rewrite", "map_children", "exists",
+            "apply_children"}
 
 (*************************** all ordered trees *****************************)
 \* a forest with m nodes = sequence of trees; a tree with m nodes = root + forest with m-1 nodes.
@@ -56,7 +61,8 @@ Call(s, ph, n, cs) ==   \* invoke the callback of phase ph on node n
 RECURSIVE OverKids(_, _, _, _, _, _)
 OverKids(G(_, _, _), ks, s, tr, tnr, cs) ==
   IF ks = <<>> \/ tnr = "S" THEN [s |-> s, tr |-> tr, tnr |-> tnr]
-  ELSE LET r == G(s, Head(ks), cs) IN OverKids(G, Tail(ks), r.s, tr \/ r.tr, r.tnr, cs)
+  ELSE LET r == G(s, Head(ks), cs) IN
+       OverKids(G, Tail(ks), r.s, tr \/ r.tr, IF Head(ks) \in cs.subs /\ r.tnr = "J" THEN "C" ELSE r.tnr, cs)
 
 RECURSIVE Apply(_, _, _)
 Apply(s, n, cs) ==
@@ -93,6 +99,11 @@ TDownUp(s, n, cs) ==
 MapKid(s, n, cs) == Call(s, "d", n, cs)
 MapChildren(s, n, cs) == OverKids(MapKid, cs.kids[n], s, FALSE, "C", cs)
 
+\* apply_children(f): f on every child, no recursion (also the shape of LogicalPlan::apply_expressions)
+ApplyKid(s, n, cs) ==
+  Call(s, "d", n, [cs EXCEPT !.chg = [x \in DOMAIN cs.chg |-> [ph \in {"d", "u"} |-> FALSE]]])
+ApplyChildren(s, n, cs) == OverKids(ApplyKid, cs.kids[n], s, FALSE, "C", cs)
+
 \* exists(pred): pred = chg[.]["d"]; stops at the first node satisfying it
 Exists(s, n, cs) ==
   LET cs2 == [cs EXCEPT !.dec = [x \in DOMAIN cs.dec |-> [ph \in {"d", "u"} |-> IF cs.chg[x]["d"] THEN "S" ELSE "C"]]]
@@ -107,38 +118,58 @@ Run(m, cs) ==
     [] m = "transform_up" -> TUp(S0, 1, cs)
     [] m \in {"transform_down_up", "rewrite"} -> TDownUp(S0, 1, cs)
     [] m = "map_children" -> MapChildren(S0, 1, cs)
+    [] m = "apply_children" -> ApplyChildren(S0, 1, cs)
     [] m = "exists" -> Exists(S0, 1, cs)
 
 (****************************** cases **************************************)
 Ph == {"d", "u"}
 \* only the callbacks a method has, and only the answers it looks at, vary
-UsesPh(m) == IF m \in {"apply", "transform_down", "map_children", "exists"} THEN {"d"}
+UsesPh(m) == IF m \in {"apply", "transform_down", "map_children", "exists", "apply_children"} THEN {"d"}
              ELSE IF m = "transform_up" THEN {"u"} ELSE {"d", "u"}
-UsesChg(m) == m \notin {"apply", "visit"}
+UsesChg(m) == m \notin {"apply", "visit", "apply_children"}
 UsesDec(m) == m # "exists"
-DecsOf(n, m) == {d \in [1..n -> [Ph -> {"C", "J", "S"}]] :
-                  /\ Cardinality({x \in (1..n) \X Ph : d[x[1]][x[2]] # "C"}) <= MAXNC
-                  /\ \A i \in 1..n : \A ph \in Ph : (ph \notin UsesPh(m) \/ ~UsesDec(m)) => d[i][ph] = "C"}
-ChgsOf(n, m) == {g \in [1..n -> [Ph -> BOOLEAN]] :
-                  \A i \in 1..n : \A ph \in Ph : (ph \notin UsesPh(m) \/ ~UsesChg(m)) => g[i][ph] = FALSE}
-AllTrees == UNION {Trees(k) : k \in 1..MAXN}
+AllC(n) == [i \in 1..n |-> [ph \in Ph |-> "C"]]
+\* decision vectors with at most k non-Continue answers, built constructively
+RECURSIVE DecsK(_, _, _)
+DecsK(n, m, k) ==
+  IF k = 0 \/ ~UsesDec(m) THEN {AllC(n)}
+  ELSE LET prev == DecsK(n, m, k - 1) IN
+       prev \cup {[d EXCEPT ![i][ph] = v] : d \in prev, i \in 1..n, ph \in UsesPh(m), v \in {"J", "S"}}
+DecsOf(n, m) == DecsK(n, m, MAXNC)
+ChgSlot(i, ph, m) == ph \in UsesPh(m) /\ UsesChg(m) /\ ~(STAR /\ i = 1)
+ChgsOf(n, m) == {g \in [1..n -> [Ph -> BOOLEAN]] : \A i \in 1..n : \A ph \in Ph : ~ChgSlot(i, ph, m) => g[i][ph] = FALSE}
+RandChg(n, m) == [i \in 1..n |-> [ph \in Ph |-> ChgSlot(i, ph, m) /\ RandomElement(BOOLEAN)]]
+AllTrees == IF STAR THEN {<<k>> \o [i \in 1..(k - 1) |-> 1] : k \in 2..MAXN}
+            ELSE UNION {Trees(k) : k \in 1..MAXN}
 \* constant-level tables: evaluated once by TLC
 DecsTab == [n \in 1..MAXN |-> [m \in Methods |-> DecsOf(n, m)]]
-ChgsTab == [n \in 1..MAXN |-> [m \in Methods |-> ChgsOf(n, m)]]
 Vectors(n, m) ==
-  IF SAMPLE = 0 THEN DecsTab[n][m] \X ChgsTab[n][m]
-  ELSE {<<d, RandomElement(ChgsTab[n][m])>> : d \in RandomSubset(SAMPLE, DecsTab[n][m])}
+  IF SAMPLE = 0 THEN DecsTab[n][m] \X ChgsOf(n, m)
+  ELSE {<<d, RandChg(n, m)>> : d \in RandomSubset(SAMPLE, DecsTab[n][m])}
+       \cup (IF UsesDec(m) THEN {} ELSE {<<AllC(n), RandChg(n, m)>> : k \in 1..SAMPLE})
+
+\* embedded-subquery children: one-child nodes that form a prefix of their parent's children
+RECURSIVE SubPrefix(_, _)
+SubPrefix(size, ks) == IF ks = <<>> \/ size[Head(ks)] = 1 \/ Len(Kids(size)[Head(ks)]) # 1 THEN {}
+                       ELSE {Head(ks)} \cup SubPrefix(size, Tail(ks))
+\* a node that is itself an embedded subquery (a LogicalPlan::Subquery node) has its plan as ordinary input
+RECURSIVE SubsFrom(_, _, _)
+SubsFrom(size, n, nIsSub) ==
+  LET ks == Kids(size)[n]
+      P  == IF nIsSub THEN {} ELSE SubPrefix(size, ks) IN
+  P \cup UNION {SubsFrom(size, ks[i], ks[i] \in P) : i \in 1..Len(ks)}
+SubsOf(size) == IF SUBQ THEN SubsFrom(size, 1, FALSE) ELSE {}
 
 Init == \E t \in AllTrees : \E m \in Methods : \E v \in Vectors(Len(t), m) :
-          /\ c = [size |-> t, method |-> m, dec |-> v[1], chg |-> v[2]]
-          /\ LET cs  == [kids |-> Kids(t), dec |-> v[1], chg |-> v[2]]
+          /\ c = [size |-> t, method |-> m, dec |-> v[1], chg |-> v[2], subs |-> SubsOf(t)]
+          /\ LET cs  == [kids |-> Kids(t), dec |-> v[1], chg |-> v[2], subs |-> SubsOf(t)]
                  res == Run(m, cs) IN
              ev = [res |-> res, kids |-> cs.kids,
                   logpn |-> [i \in 1..Len(res.s.log) |-> <<res.s.log[i][1], res.s.log[i][2]>>]]
 Next == UNCHANGED <<c, ev>>
 Spec == Init /\ [][Next]_<<c, ev>>
 
-CS == [kids |-> ev.kids, dec |-> c.dec, chg |-> c.chg]
+CS == [kids |-> ev.kids, dec |-> c.dec, chg |-> c.chg, subs |-> c.subs]
 R == ev.res
 N == Len(c.size)
 
@@ -157,7 +188,7 @@ PrePost(kids, n) == << <<"d", n>> >> \o PrePostKids(kids, kids[n]) \o << <<"u", 
 PrePostKids(kids, ks) == IF ks = <<>> THEN <<>> ELSE PrePost(kids, Head(ks)) \o PrePostKids(kids, Tail(ks))
 
 LogPN == ev.logpn
-AllC == \A n \in 1..N : \A ph \in Ph : c.dec[n][ph] = "C"
+AllCont == \A n \in 1..N : \A ph \in Ph : c.dec[n][ph] = "C"
 Logged(ph, n) == \E i \in 1..Len(LogPN) : LogPN[i] = <<ph, n>>
 Walks == c.method \in {"apply", "visit", "transform_down", "transform_up", "transform_down_up", "rewrite"}
 HasDown == c.method \in {"apply", "visit", "transform_down", "transform_down_up", "rewrite"}
@@ -165,11 +196,12 @@ HasUp == c.method \in {"visit", "transform_up", "transform_down_up", "rewrite"}
 Rewrites == c.method \in {"transform_down", "transform_up", "transform_down_up", "rewrite", "map_children"}
 
 OrderOK ==
-  AllC => /\ c.method \in {"apply", "transform_down"} => LogPN = [i \in 1..N |-> <<"d", Pre(CS.kids, 1)[i]>>]
-          /\ c.method = "transform_up" => LogPN = [i \in 1..N |-> <<"u", Post(CS.kids, 1)[i]>>]
-          /\ c.method \in {"visit", "rewrite", "transform_down_up"} => LogPN = PrePost(CS.kids, 1)
-          /\ c.method = "map_children" => LogPN = [i \in 1..Len(CS.kids[1]) |-> <<"d", CS.kids[1][i]>>]
-          /\ Walks => R.tnr = "C"
+  AllCont =>
+    /\ c.method \in {"apply", "transform_down"} => LogPN = [i \in 1..N |-> <<"d", Pre(CS.kids, 1)[i]>>]
+    /\ c.method = "transform_up" => LogPN = [i \in 1..N |-> <<"u", Post(CS.kids, 1)[i]>>]
+    /\ c.method \in {"visit", "rewrite", "transform_down_up"} => LogPN = PrePost(CS.kids, 1)
+    /\ c.method \in {"map_children", "apply_children"} => LogPN = [i \in 1..Len(CS.kids[1]) |-> <<"d", CS.kids[1][i]>>]
+    /\ Walks => R.tnr = "C"
 OnceOK == \A i, j \in 1..Len(LogPN) : i # j => LogPN[i] # LogPN[j]
 \* a logged top-down Jump prunes exactly that node's subtree (in combined walks the walk "jumps" to the node's own
 \* f_up); a logged bottom-up Jump on a last child bypasses the parent's f_up
@@ -181,7 +213,8 @@ JumpOK ==
 UpJumpOK ==
   (Walks /\ HasUp) =>
     \A p \in 1..N : \A n \in 1..N :
-       (CS.kids[p] # <<>> /\ n = CS.kids[p][Len(CS.kids[p])] /\ Logged("u", n) /\ c.dec[n]["u"] = "J") => ~Logged("u", p)
+       (CS.kids[p] # <<>> /\ n = CS.kids[p][Len(CS.kids[p])] /\ n \notin c.subs /\ Logged("u", n) /\ c.dec[n]["u"] = "J")
+          => ~Logged("u", p)
 \* after a Stop nothing is called any more
 StopOK ==
   c.method # "exists" =>
@@ -203,7 +236,7 @@ ExistsOK == c.method = "exists" => (R.tr <=> \E n \in 1..N : c.chg[n]["d"])
 
 SpecOK == OrderOK /\ OnceOK /\ JumpOK /\ UpJumpOK /\ StopOK /\ StopTnr /\ MarksOK /\ NestOK /\ ExistsOK
 
-Emit == PrintT(<<"CASE", ToJson([size |-> c.size, kids |-> CS.kids, method |-> c.method,
+Emit == PrintT(<<"CASE", ToJson([size |-> c.size, kids |-> CS.kids, method |-> c.method, subs |-> c.subs,
                                  dec |-> [n \in 1..N |-> <<c.dec[n]["d"], c.dec[n]["u"]>>],
                                  chg |-> [n \in 1..N |-> <<IF c.chg[n]["d"] THEN 1 ELSE 0, IF c.chg[n]["u"] THEN 1 ELSE 0>>],
                                  log |-> R.s.log, dm |-> R.s.dm, um |-> R.s.um,
